@@ -55,7 +55,8 @@ TRANSFORMS = {"none": None, "scale": OptModelTransforms(objectives=ObjectiveScal
 TOLS = [None, 0.0, 1e-10, 0.5]
 
 
-def make_result(letter: tuple[Any, ...]) -> FunctionResults | GradientResults:
+def make_result(letter: tuple[Any, ...], level: tuple[float, float] = (0.0, 1.0)) -> FunctionResults | GradientResults:
+    """level: (offset, scale) applied to the objective values - which result is the best one does not depend on it."""
     kind = letter[0]
     if kind == "grad":
         return GradientResults(
@@ -63,7 +64,7 @@ def make_result(letter: tuple[Any, ...]) -> FunctionResults | GradientResults:
             evaluations=GradientEvaluations.create(np.zeros(1), np.zeros((1, 1, 1)), np.zeros((1, 1, 1))),
             realizations=Realizations(failed_realizations=np.array([False])),
             gradients=Gradients.create(np.zeros(1), np.zeros((1, 1))))
-    obj = float(letter[1])
+    obj = level[0] + level[1] * float(letter[1])
     feasible = letter[2]
     ident = np.array([float(sum(ord(ch) for ch in str(letter[4])) + (100 if letter[3] == "O" else 0) + (1000 if feasible is True else (2000 if feasible else 0)))])
     functions = None if kind == "nofun" else Functions.create(np.array(obj), np.array([obj]))
@@ -181,14 +182,15 @@ def run_history(case: dict[str, Any], cache: dict[Any, Any] | None = None) -> di
             continue
         letters = [tuple(l) for l in event["results"]]
         items = []
+        level = tuple(case.get("level") or (0.0, 1.0))
         for l in letters:
-            key = tuple("nan" if isinstance(v, float) and math.isnan(v) else v for v in l)
+            key = (*("nan" if isinstance(v, float) and math.isnan(v) else v for v in l), level)
             if cache is not None:
                 if key not in cache:
-                    cache[key] = make_result(l)
+                    cache[key] = make_result(l, level)
                 items.append(cache[key])
             else:
-                items.append(make_result(l))
+                items.append(make_result(l, level))
         tracked = event["source"] == "T"
         results, transformed = emit(plan, tuple(items), case["transform"], TRACKED if tracked else OTHER)
         before = len(ref.candidates)
@@ -242,7 +244,7 @@ def run_real(case: dict[str, Any]) -> dict[str, Any]:
         cfg["nonlinear_constraints"] = {"lower_bounds": [case["c_lb"]], "upper_bounds": [np.inf]}
     sign = -1.0 if case["maximize"] else 1.0
     a = np.array(case["slopes"], dtype=np.float64).reshape(2, 2, n)
-    ev = AffineEvaluator(a[:, :1] * sign, np.zeros((2, 1)), a[:, 1:] if case["constraint"] else None,
+    ev = AffineEvaluator(a[:, :1] * sign, np.full((2, 1), float(case.get("level") or 0.0)), a[:, 1:] if case["constraint"] else None,
                          np.zeros((2, 1)) if case["constraint"] else None, quad=0.5 * sign)
     if case["nan_every"]:
         ev.fail = {(k, r, -1): [("obj", 0)] for k in range(0, 400, case["nan_every"]) for r in range(2)}
@@ -287,6 +289,7 @@ def hypothesis_shard(item: dict[str, Any]) -> Collector:
                     "maximize": draw(st.booleans()), "slopes": [draw(st.sampled_from([-1.0, 0.5, 1.0, 2.0])) for _ in range(8)],
                     "nan_every": draw(st.sampled_from([0, 0, 2, 3])) if method == "differential_evolution" else 0,
                     "too_few_at": draw(st.integers(1, 6)) if method != "differential_evolution" and draw(st.booleans()) else None,
+                    "level": draw(st.sampled_from([0.0, 0.0, 1e6, -1e10, 1e10])),  # common offset of all objective values
                     "tol": draw(st.sampled_from([None, 1e-10, 0.5]))}
         events: list[Any] = []
         for _ in range(draw(st.integers(1, 12))):
@@ -296,12 +299,16 @@ def hypothesis_shard(item: dict[str, Any]) -> Collector:
             k = draw(st.sampled_from([1, 1, 2, 3]))
             events.append({"source": draw(st.sampled_from(["T", "T", "O"])),
                            "results": [list(draw(st.sampled_from(letters))) for _ in range(k)]})
-        return {"kind": "history", "transform": draw(st.sampled_from(list(TRANSFORMS))), "tol": draw(st.sampled_from(TOLS)), "events": events}
+        # (offset, scale) of the objective values 1, 2, 3: 1e10 + 1 and 1e10 + 2 are different numbers, and so are 1e-12 and 2e-12
+        level = draw(st.sampled_from([[0.0, 1.0], [0.0, 1.0], [1e10, 1.0], [-1e10, 1.0], [0.0, 1e-12], [0.0, 1e12], [1e6, 1e-3]]))
+        return {"kind": "history", "transform": draw(st.sampled_from(list(TRANSFORMS))), "tol": draw(st.sampled_from(TOLS)), "events": events,
+                "level": level}
 
     def body(case: dict[str, Any]) -> None:
         info = run_real(case) if case["kind"] == "real" else run_history(case)
         col.case(case, nontrivial=info["nontrivial"], classes=(
-            case["kind"], f"transform={case.get('transform', 'flip' if case.get('maximize') else 'none')}",
+            case["kind"], "objective-level=" + ("plain" if not case.get("level") or case["level"] in (0.0, [0.0, 1.0]) else "shifted-or-scaled"),
+            f"transform={case.get('transform', 'flip' if case.get('maximize') else 'none')}",
             *(("method=" + case["method"], "ends-with-too-few-realizations" if case.get("too_few_at") is not None else "no-fatal-failure") if case["kind"] == "real" else ("multi-result" if any(
                 e != "reset" and len(e["results"]) > 1 for e in case["events"]) else "single-result",
                 "reset" if "reset" in case["events"] else "no-reset"))))
